@@ -210,5 +210,7 @@ tcase('prechunks', split=50, prechunks='1 2 3', chunks='5 11')
 tcase('notls', cfg='lim=16777215 tls=0 auth=ok', split=100)
 tcase('clientcert', cfg='lim=16777215 tls=1 auth=ok clientcert=1', split=10, chunks='64')
 tcase('rej', cfg='lim=16777215 tls=1 auth=rej:5 clientcert=1')
+tcase('bighello', cfg='lim=16777215 tls=1 auth=ok bighello=6000', split=100000)
+tcase('bighello40k', cfg='lim=16777215 tls=1 auth=ok clientcert=1 bighello=40000', split=5000, chunks='1000 3')
 tcase('lim64', cfg='lim=64 tls=1 auth=ok', chunks='13', extra='q start 1 - 61 253 0 wc s:r100x7a p fin')
 open('tls.cases','w').write('\n'.join(cases)+'\n')
